@@ -24,6 +24,11 @@ Engine E1.  Layers (each enumerated completely up to the tier bound):
          and by the deprecated Tree method; treeness and gamma on the same drawings (every
          weak ranking of the base drawing).
   hist   Pybus-Harvey gamma after the node ages were computed for other edge lengths.
+  pure   every history [call f; change the edge lengths; call g] on one tree object, f and g
+         over the functions of the property (18 x ~23), the change over {scale_edges(2), one
+         edge doubled (each edge), every other ultrametric pattern of the shape set directly
+         and through harness-set ages + set_edge_lengths_from_node_ages, two sibling lengths
+         swapped (each pair)}: g must pass the same check as on a freshly built tree.
 
 Reference: plain Python on snapshots (this file); Fractions decide acceptance/rejection.
 """
@@ -98,11 +103,11 @@ SACKIN_ARGS = [DEFAULT, True, None, False, "yule", "pda"]
 def bounds(tier):
     if tier == "quick":
         return {"ult_max_leaves": 5, "pert_max_leaves": 5, "pert_all_order_variants_up_to": 4,
-                "gen_max_leaves": 4, "stat_max_leaves": 6, "all_orders_up_to": 4, "hist_max_leaves": 4,
+                "gen_max_leaves": 4, "stat_max_leaves": 6, "all_orders_up_to": 4, "hist_max_leaves": 4, "pure_max_leaves": 4,
                 "height_maps": sorted(HMAPS), "precisions": [repr(p) for p in PREC_ALL],
                 "deltas": [d for d, _ in DELTAS], "gen_alphabets": {"n<=3": [0, 1, 2], "n>=4": [[1, 2], [0, 1]]}}
     return {"ult_max_leaves": 6, "pert_max_leaves": 6, "pert_all_order_variants_up_to": 5,
-            "gen_max_leaves": 5, "stat_max_leaves": 7, "all_orders_up_to": 4, "hist_max_leaves": 5,
+            "gen_max_leaves": 5, "stat_max_leaves": 7, "all_orders_up_to": 4, "hist_max_leaves": 5, "pure_max_leaves": 5,
             "height_maps": sorted(HMAPS), "precisions": [repr(p) for p in PREC_ALL],
             "deltas": [d for d, _ in DELTAS], "gen_alphabets": {"n<=3": [0, 1, 2], "n>=4": [[1, 2], [0, 1]]}}
 
@@ -127,6 +132,8 @@ def chunks(tier):
         add("stat", n, 60 if n <= 5 else (100 if n == 6 else 400))
     for n in range(3, b["hist_max_leaves"] + 1):
         add("hist", n, 30)
+    for n in range(2, b["pure_max_leaves"] + 1):
+        add("pure", n, 30 if n <= 3 else (1 if n == 4 else 2))
     return out
 
 
@@ -142,8 +149,14 @@ def tup(x):
 _NS = []
 
 
+_PREBUILT = []
+
+
 def mktree(sn):
-    """fresh tree through the Node API; the taxa (not the nodes) are shared between trees"""
+    """fresh tree through the Node API; the taxa (not the nodes) are shared between trees.
+    (check_history hands the checks a live tree with a past instead, through _PREBUILT.)"""
+    if _PREBUILT:
+        return _PREBUILT.pop()
     if not _NS:
         ns = dendropy.TaxonNamespace()
         for l in U.LABELS:
@@ -1131,7 +1144,252 @@ def run_hist(chunk, ctx):
                     check_gamma_history({"kind": "gamma-history", "tree": s1, "tree2": s2, "prior": prior, "exact": True}, ctx)
 
 
-RUNNERS = {"ult": run_ult, "pert": run_pert, "gen": run_gen, "part": run_part, "stat": run_stat, "hist": run_hist}
+# ---------------------------------------------------------------------------
+# purity / history layer: [call f; edit the edge lengths; call g] on ONE tree object.
+# g must answer for the lengths the tree has now - i.e. exactly what the same check demands of a
+# freshly built tree with those lengths - whatever f left behind on the nodes (age,
+# root_distance, depth, ...).
+
+def _f_lineage(tree, sn):
+    return tree.num_lineages_at(lineage_queries(sn)[0])
+
+
+def _f_setlen(tree, sn):
+    tree.calc_node_ages()
+    tree.set_edge_lengths_from_node_ages()
+
+
+def _f_stats(tree, sn):
+    treemeasure.B1(tree)
+    treemeasure.N_bar(tree)
+    treemeasure.sackin_index(tree)
+    if is_binary_sn(sn):
+        treemeasure.colless_tree_imbalance(tree, None)
+
+
+def _f_copy(tree, sn):
+    import copy
+    tree.calc_node_root_distances()
+    tree.calc_node_ages()
+    return copy.deepcopy(tree)
+
+
+FIRST_CALLS = {
+    "none": lambda tree, sn: None,
+    "calc_node_ages": lambda tree, sn: tree.calc_node_ages(),
+    "calc_node_ages:max": lambda tree, sn: tree.calc_node_ages(is_force_max_age=True),
+    "node_ages": lambda tree, sn: tree.node_ages(),
+    "internal_node_ages": lambda tree, sn: tree.internal_node_ages(),
+    "resolve_node_ages": lambda tree, sn: tree.resolve_node_ages(),
+    "resolve_node_depths": lambda tree, sn: tree.resolve_node_depths(),
+    "calc_node_root_distances": lambda tree, sn: tree.calc_node_root_distances(),
+    "num_lineages_at": _f_lineage,
+    "max_distance_from_root": lambda tree, sn: tree.max_distance_from_root(),
+    "minmax_leaf_distance_from_root": lambda tree, sn: tree.minmax_leaf_distance_from_root(),
+    "length": lambda tree, sn: tree.length(),
+    "treeness": lambda tree, sn: treemeasure.treeness(tree),
+    "pybus_harvey_gamma": lambda tree, sn: treemeasure.pybus_harvey_gamma(tree),
+    "treemeasure.node_depths": lambda tree, sn: treemeasure.node_depths(tree),
+    "set_edge_lengths_from_node_ages": _f_setlen,
+    "statistics": _f_stats,
+    "ages+root_distances+deepcopy": _f_copy,
+}
+FIRST_ORDER = ["none", "calc_node_ages", "calc_node_ages:max", "node_ages", "internal_node_ages", "resolve_node_ages",
+               "resolve_node_depths", "calc_node_root_distances", "num_lineages_at", "max_distance_from_root",
+               "minmax_leaf_distance_from_root", "length", "treeness", "pybus_harvey_gamma", "treemeasure.node_depths",
+               "set_edge_lengths_from_node_ages", "statistics", "ages+root_distances+deepcopy"]
+
+
+def second_calls(sn2, n):
+    """the g's: case dicts (without the tree) of the ordinary checks"""
+    out = []
+    for fn, p, force in (("calc_node_ages", DEFAULT, None), ("node_ages", DEFAULT, None), ("internal_node_ages", DEFAULT, None),
+                         ("calc_node_ages", None, None), ("calc_node_ages", DEFAULT, "max"), ("calc_node_ages", DEFAULT, "min")):
+        out.append({"kind": "ages", "fn": fn, "p": p, "force": force})
+    for op in ("resolve_node_ages", "resolve_node_depths", "calc_node_root_distances:default", "calc_node_root_distances:all",
+               "treemeasure.node_ages", "treemeasure.node_depths", "treemeasure.coalescence_ages", "treemeasure.divergence_times",
+               "length", "max_distance_from_root", "minmax_leaf_distance_from_root"):
+        out.append({"kind": "resolve", "op": op})
+    out.append({"kind": "lineages"})
+    out.append({"kind": "treeness"})
+    if n >= 3 and is_binary_sn(sn2):
+        out.append({"kind": "gamma", "prec": DEFAULT, "via": "module"})
+    for src in ("calc", "resolve"):
+        out.append({"kind": "setlen", "src": src, "wipe": "none", "kw": "default"})
+    out.append({"kind": "stats"})
+    return out
+
+
+def g_name(g):
+    return g.get("fn") or g.get("op") or (g["kind"] + (":" + g["src"] if "src" in g else ""))
+
+
+def scaled(sn, factor, path=None, _here=()):
+    """snapshot with every non-root length (path None) or the length above `path` multiplied"""
+    L = sn[2]
+    if _here and L is not None and (path is None or tuple(path) == _here):
+        L = L * factor
+    return (sn[0], sn[1], L, tuple(scaled(c, factor, path, _here + (i,)) for i, c in enumerate(sn[3])))
+
+
+def swapped(sn, path, i, j):
+    """snapshot with the lengths above children i and j of the node at `path` exchanged"""
+    if path:
+        k = path[0]
+        return (sn[0], sn[1], sn[2], sn[3][:k] + (swapped(sn[3][k], path[1:], i, j),) + sn[3][k + 1:])
+    ch = list(sn[3])
+    a, b = ch[i], ch[j]
+    ch[i] = (a[0], a[1], b[2], a[3])
+    ch[j] = (b[0], b[1], a[2], b[3])
+    return (sn[0], sn[1], sn[2], tuple(ch))
+
+
+def history_edits(s1, patterns):
+    """[(edit descriptor, snapshot after the edit)]"""
+    out = [({"type": "scale_edges", "factor": 2.0}, scaled(s1, 2.0))]
+    f = facts(s1)
+    for path in sorted(f):
+        if path:
+            out.append(({"type": "direct", "what": "scale-one-edge"}, scaled(s1, 2.0, path)))
+    for s2 in patterns:
+        if s2 != s1:
+            out.append(({"type": "direct", "what": "other-ultrametric-pattern"}, s2))
+            out.append(({"type": "ages"}, s2))
+    for path in sorted(f):
+        k = f[path][2]
+        nd = s1
+        for i in path:
+            nd = nd[3][i]
+        for i in range(k):
+            for j in range(i + 1, k):
+                if nd[3][i][2] != nd[3][j][2]:
+                    out.append(({"type": "direct", "what": "swap-sibling-lengths"}, swapped(s1, path, i, j)))
+    return out
+
+
+class _Capture(object):
+    """collects the violations of an ordinary check without reporting them"""
+
+    def __init__(self):
+        self.got = []
+
+    def violation(self, sig, msg, case):
+        self.got.append((sig, msg))
+
+    def case(self, *a, **k):
+        pass
+
+    def count(self, *a, **k):
+        pass
+
+    def maximum(self, *a, **k):
+        pass
+
+    def sample(self, *a, **k):
+        pass
+
+
+def check_history(case, ctx):
+    s1, s2 = tup(case["tree"]), tup(case["tree2"])
+    fname, edit, g = case["f"], case["edit"], case["g"]
+    tree = mktree(s1)
+    try:
+        r = FIRST_CALLS[fname](tree, s1)
+    except Exception:
+        return                                  # f itself is judged by the other layers
+    if fname.endswith("deepcopy"):
+        tree = r
+    # -- the edit
+    try:
+        nodes = walk(tree, s1)
+    except RuntimeError:
+        ctx.count("history_copy_structure_differs")
+        return
+    if edit["type"] == "scale_edges":
+        tree.scale_edges(edit["factor"])
+    elif edit["type"] == "direct":
+        want = dict((path, v) for path, v in _lengths(s2).items())
+        for nd, path in nodes:
+            if nd._edge.length != want[path] or (nd._edge.length is None) != (want[path] is None):
+                nd.edge.length = want[path]
+    elif edit["type"] == "ages":
+        f2 = facts(s2)
+        for nd, path in nodes:
+            nd.age = max(f2[path][1])
+        st, val = call(lambda: tree.set_edge_lengths_from_node_ages())
+        if st == "exc":
+            ctx.violation("after-history|set_edge_lengths_from_node_ages|exception|%s" % type(val).__name__,
+                          "after %s on %s, ages set for %s: %r" % (fname, nwk(s1), nwk(s2), val), case)
+            return
+    else:
+        raise ValueError(edit)
+    now = ref.snapshot(tree)[1]
+    if now != s2:
+        if edit["type"] == "ages":
+            ctx.violation("after-history|set_edge_lengths_from_node_ages|lengths",
+                          "after %s on %s the node ages were set for %s and set_edge_lengths_from_node_ages() called: the tree is %s" % (
+                              fname, nwk(s1), nwk(s2), nwk(now)), case)
+        else:
+            ctx.count("history_edit_result_unexpected")     # scale_edges is not this property's subject
+        return
+    # -- g on the tree with a past, judged by the ordinary check for the present lengths
+    gcase = dict(g, tree=s2, exact=True)
+    cap = _Capture()
+    _PREBUILT.append(tree)
+    try:
+        CHECKS[g["kind"]](gcase, cap)
+    finally:
+        del _PREBUILT[:]
+    if not cap.got:
+        return
+    fresh = _Capture()
+    CHECKS[g["kind"]](gcase, fresh)
+    fresh_sigs = set(sig for sig, _ in fresh.got)
+    for sig, msg in cap.got:
+        if sig in fresh_sigs:
+            continue                             # wrong on a fresh tree as well: reported by the other layers
+        ctx.violation("after-history|" + sig,
+                      "tree %s; %s; lengths changed (%s) to %s; then on the same object: %s  [a freshly built tree with these lengths passes]" % (
+                          nwk(s1), fname, edit.get("what", edit["type"]), nwk(s2), msg), case)
+
+
+def _lengths(sn, path=()):
+    out = {path: sn[2]}
+    for i, c in enumerate(sn[3]):
+        out.update(_lengths(c, path + (i,)))
+    return out
+
+
+def run_pure(chunk, ctx):
+    n = chunk["n"]
+    shapes = U.shapes(n)
+    for si in range(chunk["lo"], chunk["hi"]):
+        shape = shapes[si]
+        patterns = []
+        for ranks in rankings(shape):
+            for hm in ("lin", "geo", "mix"):
+                t = ultra_snap(shape, ranks, hm)
+                if t not in patterns:
+                    patterns.append(t)
+        starts = [t for t in patterns if t in [ultra_snap(shape, r, "lin") for r in rankings(shape)]]
+        for s1 in starts:
+            edits = history_edits(s1, patterns)
+            ctx.count("history_start_trees")
+            for edit, s2 in edits:
+                gs = second_calls(s2, n)
+                for fname in FIRST_ORDER:
+                    if fname == "pybus_harvey_gamma" and not (n >= 3 and is_binary_sn(s1)):
+                        continue
+                    for g in gs:
+                        ctx.case(("pure", s1, fname, edit["type"], s2, repr(sorted(g.items()))), _nontriv(n))
+                        ctx.count("histories")
+                        check_history({"kind": "history", "tree": s1, "tree2": s2, "f": fname, "edit": edit, "g": g}, ctx)
+            if si == chunk["lo"] and n >= 3:
+                ctx.sample({"layer": "pure", "start": nwk(s1), "edits": len(edits), "first_calls": len(FIRST_ORDER),
+                            "second_calls": [g_name(g) for g in second_calls(s1, n)]}, 1)
+
+
+RUNNERS = {"ult": run_ult, "pert": run_pert, "gen": run_gen, "part": run_part, "stat": run_stat, "hist": run_hist, "pure": run_pure}
 
 
 def run_chunk(chunk, ctx):
@@ -1141,7 +1399,7 @@ def run_chunk(chunk, ctx):
 
 CHECKS = {"ages": check_ages, "resolve": check_resolve, "setlen": check_setlen, "lineages": check_lineages,
           "treeness": check_treeness, "gamma": check_gamma, "gamma-history": check_gamma_history,
-          "stats": check_stats, "plen": check_length_partial, "both": check_both_force}
+          "stats": check_stats, "plen": check_length_partial, "both": check_both_force, "history": check_history}
 
 
 def replay(case, ctx):
